@@ -124,7 +124,7 @@ fn vec_try_reserve_under_refusal(args: &Args, rep: &mut Report) {
         halloc::Env::PLAIN.apply(1);
         let mut arena = if rng.chance(1, 2) { Bump::new() } else { Bump::with_capacity(rng.range(1, 600) as usize) };
         let cap = rng.range(1, 40) as usize;
-        let len = rng.below(cap + 1);
+        let len = if rng.chance(1, 4) { cap } else { rng.below(cap + 1) };
         let exact = rng.chance(1, 2);
         let by_limit = rng.chance(1, 3);
         rep.ctx = format!("C09 vec try_reserve case {} cap {} len {} exact {} by_limit {} (seed {} shard {})", case, cap, len, exact, by_limit, args.seed, args.shard);
@@ -141,12 +141,13 @@ fn vec_try_reserve_under_refusal(args: &Args, rep: &mut Report) {
             // sometimes the chunk is filled first so that, with the vector as the newest block, only a
             // little room is left behind it (less than doubling needs, enough for small extensions)
             let tight = rng.chance(1, 2);
+            let mut guard: Option<*const [u8]> = None;
             if tight {
                 let _ = a.alloc(0u32); // make sure there is a chunk
                 let want_room = cap * 4 + rng.below(cap * 4 + 9);
                 let room = a.chunk_capacity();
                 if room > want_room && room < (1 << 16) {
-                    a.alloc_slice_fill_copy(room - want_room, 0x11u8);
+                    guard = Some(a.alloc_slice_fill_copy(room - want_room, 0x11u8) as *const [u8]);
                 }
             }
             v.reserve_exact(cap);
@@ -212,6 +213,23 @@ fn vec_try_reserve_under_refusal(args: &Args, rep: &mut Report) {
                         rep.violate("C09", format!("C09/collections/vec::{}/extension-that-fits-the-current-chunk-failed", name), format!("capacity {} len {} additional {} with {} bytes left in the chunk ({})", c0, v.len(), k, a.chunk_capacity(), rep.ctx));
                         rep.violate("C07", format!("C07/fitting-request-failed/vec::{}/extension-of-the-newest-block", name), format!("capacity {} len {} additional {} with {} bytes left in the chunk ({})", c0, v.len(), k, a.chunk_capacity(), rep.ctx));
                     } else if ok {
+                        // the capacity now claimed is really reserved: filling it moves nothing and touches no neighbour
+                        let (p1, c1) = (v.as_ptr() as usize, v.capacity());
+                        let mut i = 0u32;
+                        while v.len() < c1 && i < 4096 {
+                            v.push(0xF111_0000 + i);
+                            i += 1;
+                        }
+                        if v.as_ptr() as usize != p1 || v.capacity() != c1 {
+                            rep.violate("C19", format!("C19/vec::{}/filling-the-claimed-capacity-moved-the-buffer", name), format!("capacity {} ({})", c1, rep.ctx));
+                        }
+                        if let Some(g) = guard {
+                            if unsafe { (&*g).iter().any(|x| *x != 0x11) } {
+                                rep.violate("C19", format!("C19/vec::{}/capacity-claims-memory-that-was-not-reserved", name), format!("filling the {} claimed slots overwrote the block allocated just before the vector ({})", c1, rep.ctx));
+                            }
+                        }
+                        rep.bump("c19.vec_capacity_claims_filled_under_faults");
+                        v.truncate(want.len());
                         if v.capacity() < v.len() + k {
                             rep.violate("C09", format!("C09/collections/vec::{}/ok-without-the-capacity", name), format!("len {} additional {} capacity {}", v.len(), k, v.capacity()));
                         }
